@@ -11,7 +11,7 @@ LEVEL = 'exploration'
 LEVEL_TEXT = ('seeded exploration of specifications x record lengths (every even 32..256 reached by index, larger sampled) '
               'x output-chunk schedules x prior content; strict framing parse after every flush and of the final file')
 LEVEL_NOTE = 'trusted: sim/rp66.py framing layer; sampling, not exhaustive over body lengths; record lengths 20..30 are outside (C15)'
-TIERS = {'quick': {'cases': 2200, 'wall': 40}, 'thorough': {'cases': 400000, 'wall': 780}}
+TIERS = {'quick': {'cases': 4000, 'wall': 40}, 'thorough': {'cases': 400000, 'wall': 780}}
 RULE = ('case = seeded valid specification whose no-format payloads put record body lengths at k*(max-8)+d, d in -13..13, '
         'written under 2 output-chunk schedules; non-trivial = at least one record was split into >= 2 segments and a '
         'mid-stream flush happened; distinct = digest of (specification, schedules)')
